@@ -129,7 +129,8 @@ CHECKS = {
             "variable (GeneralThreading policy) with depth-first schedule enumeration up to a preemption bound plus seeded random schedules; TLC "
             "validates every recorded API history against TraceCQ.tla (no event twice, none lost after drain, payload intact, per-producer order, "
             "no deadlock, no unlocked structural access). A stress mode runs the scenarios with the shipped std::mutex / condition_variable under "
-            "ThreadSanitizer and validates those histories with the same specification.",
+            "ThreadSanitizer and validates those histories with the same specification. HeterEventQueue (its own copy of the queue logic) runs every "
+            "scenario whose operations it has under the same controlled scheduler and the same specification.",
             "TLA+ model checking (TLC) of the interleaving model + systematic schedule exploration of the real code + TLC trace validation"),
     "C07": (MC, "7/C07", "conc",
             "ConcQueue.tla models wait as predicate-under-mutex / atomic unlock+sleep / notify_one and the DisableQueueNotify ctor/dtor steps; TLC "
@@ -137,14 +138,16 @@ CHECKS = {
             "on the real code. Waiter/producer/DisableQueueNotify scenarios run on the real EventQueue under the controlled scheduler (preemption "
             "in the window between predicate and blocking included); TraceCQ.tla decides: a stuck state with an event surely pending, no "
             "DisableQueueNotify possibly alive and a sleeping waiter is a lost wake-up; wait returns only if its predicate could have held; "
-            "waitFor returns false only after the (virtual) time-out.",
+            "waitFor returns false only after the (virtual) time-out. HeterEventQueue's wait / waitFor / enqueue run the scenarios without "
+            "DisableQueueNotify (it has none) under the same scheduler and specification.",
             "TLA+ model checking (TLC) incl. counterexample replay + systematic schedule exploration of the real code + TLC trace validation"),
     "C11": (MC, "7/C11", "conc",
             "ConcQueue.tla models emptyQueue() as two separate reads and records which enqueues had finished when the call began; TLC checks the "
             "implication on all interleavings (and finds the window when the reads are swapped). Observer scenarios run on the real EventQueue with "
             "a scheduling point before and after every atomic operation and at the unlocked list read; TraceCQ.tla demands that a true result (or a "
             "time-out with no DisableQueueNotify) implies complete consumption of everything enqueued before the call began. The single-threaded "
-            "form (observer is a listener) is decided by C05's cover through TraceDQ.tla.",
+            "form (observer is a listener) is decided by C05's cover through TraceDQ.tla. The scenarios include processing calls of two threads that "
+            "overlap without nesting, and run on HeterEventQueue as well.",
             "TLA+ model checking (TLC) + systematic schedule exploration of the real code + TLC trace validation"),
     "C20": (MC, "7/C20", "seq",
             "The implementation-shaped models carry the configuration hazards as explicit nondeterminism / defects (argument evaluation order and "
